@@ -5,6 +5,7 @@ import (
 	"fmt"
 	"log/slog"
 	"strings"
+	"unicode/utf8"
 
 	"github.com/AdguardTeam/AdGuardHome/internal/filtering"
 )
@@ -92,22 +93,40 @@ func ctDomainOrClientCaseNonStrict(
 // [unicode.SimpleFold], which is the Kelvin sign for 'k' and the long s for
 // 's', so that "kit" isn't found in "My Kitchen".
 func containsFold(s, substr string) (ok bool) {
-	n := len(substr)
-	if n == 0 {
+	if substr == "" {
 		return true
 	}
 
 	for i := range s {
-		if len(s)-i < n {
-			return false
-		}
-
-		if strings.EqualFold(s[i:i+n], substr) {
+		if hasPrefixFold(s[i:], substr) {
 			return true
 		}
 	}
 
 	return false
+}
+
+// hasPrefixFold reports whether s begins with a string that is equal to prefix
+// under Unicode simple case folding.  The strings are compared rune by rune,
+// not as windows of the same number of bytes, since runes that are equal under
+// case folding may have UTF-8 encodings of different lengths, for example the
+// Kelvin sign and 'k', the long s and 's', or the capital and the small sharp s.
+func hasPrefixFold(s, prefix string) (ok bool) {
+	for prefix != "" {
+		if s == "" {
+			return false
+		}
+
+		sr, sn := utf8.DecodeRuneInString(s)
+		pr, pn := utf8.DecodeRuneInString(prefix)
+		if sr != pr && !strings.EqualFold(string(sr), string(pr)) {
+			return false
+		}
+
+		s, prefix = s[sn:], prefix[pn:]
+	}
+
+	return true
 }
 
 // quickMatch quickly checks if the line matches the given search criterion.
